@@ -83,7 +83,12 @@ AllKinds == <<"string", "int32", "enum", "msg", "oneof_scalar", "resref", "rep_s
               "float", "double", "bytes", "oneof_msg", "rep_enum", "msg_plain", "oneof_plain", "rep_msg", "map", "msg_dep",
               "msg_twin", "msg_oneof_same", "msg_chain", "msg_chain_same">>
 KindAt(i) == AllKinds[((i - 1) % Len(AllKinds)) + 1]
-KindsOf(a, r) == {KindAt(RpcIdx(r) + a.rot + w) : w \in 0..(a.width - 1)}
+\* the services share their RPC NAMES but not their request messages: the request of the second service carries the
+\* kinds three places further in the rotation as REQUIRED fields; each request merely declares the other service's fields
+\* (not required), so a request built for the other service is accepted by the types but leaves the required fields unset
+SvcShift(s) == IF s = SvcSeq[1] THEN 0 ELSE 3
+KindsOf(a, s, r) == {KindAt(RpcIdx(r) + a.rot + w + SvcShift(s)) : w \in 0..(a.width - 1)}
+AlsoDeclared(a, s, r) == UNION {KindsOf(a, t, r) : t \in Services(a) \ {s}}
 
 \* inventory ---------------------------------------------------------------
 SampleKinds(a) == {"sync"} \cup (IF "grpc" \in a.ts THEN {"async"} ELSE {})
@@ -248,9 +253,11 @@ EmbedInDocstring == /\ stage = "embed"
                     /\ embed' = Embed(lines, lines, "blank") /\ stage' = "run"
                     /\ UNCHANGED <<api, specs, focus, lines, segs, index, phase, req, seen>>
 
-FKinds == KindsOf(api, focus.rpc)
+FKinds == KindsOf(api, focus.svc, focus.rpc)
 RunSample == /\ stage = "run" /\ phase = "idle"
-             /\ req' = BuildRequest(FKinds) /\ phase' = "built"
+             \* (mutant: one placeholder request per RPC NAME, shared by the services)
+             /\ req' = BuildRequest(IF Mutant = "shared_placeholder" THEN KindsOf(api, SvcSeq[1], focus.rpc) ELSE FKinds)
+             /\ phase' = "built"
              /\ UNCHANGED <<api, stage, specs, focus, lines, segs, index, embed, seen>>
 
 \* mutants of the calling form: the asyncio paged sample iterates an un-awaited coroutine (raises before any call
@@ -319,10 +326,11 @@ Inv_NoRaise == phase # "raised"
 Live == <>(stage = "done")
 
 \* spec -> code: one case per API with everything the specification predicts about it
-RpcRec(a, r) == [id |-> r, name |-> RpcName(r), snake |-> Snake(r), form |-> FormOf(r), kinds |-> KindsOf(a, r),
-                 required |-> UNION {TopRequired(k) : k \in KindsOf(a, r)},
-                 subreq |-> UNION {SubRequired(k) : k \in KindsOf(a, r)},
-                 oneofs |-> {OneofMembers(k) : k \in {k \in KindsOf(a, r) : OneofMembers(k) # {}}},
+RpcRec(a, s, r) == [svc |-> s, id |-> r, name |-> RpcName(r), snake |-> Snake(r), form |-> FormOf(r), kinds |-> KindsOf(a, s, r),
+                 also |-> AlsoDeclared(a, s, r),
+                 required |-> UNION {TopRequired(k) : k \in KindsOf(a, s, r)},
+                 subreq |-> UNION {SubRequired(k) : k \in KindsOf(a, s, r)},
+                 oneofs |-> {OneofMembers(k) : k \in {k \in KindsOf(a, s, r) : OneofMembers(k) # {}}},
                  params |-> Params(a, r), result |-> ResultShape(FormOf(r))]
 Canonical == focus = One(specs) /\ lines = One(SampleFiles(FormOf(focus.rpc)))
 Emit == (stage = "done" /\ Canonical) =>
@@ -331,5 +339,5 @@ Emit == (stage = "done" /\ Canonical) =>
                                             hosts |-> [s \in Services(api) |-> Short(api, s) \o ".example.com"],
                                             version |-> Version, services |-> Services(api)],
                                    inventory |-> specs,
-                                   rpcs |-> {RpcRec(api, r) : r \in RpcIds(api)}])>>)
+                                   rpcs |-> {RpcRec(api, s, r) : s \in Services(api), r \in RpcIds(api)}])>>)
 =============================================================================
